@@ -99,6 +99,40 @@ def directed(rng, tier, idents):
                 script.append({"op": "call", "inst": 1, "export": "icall", "args": [arg("i32", s_), arg("i32", 1)]})
             script.append({"op": "call", "inst": 1, "export": "icall64", "args": [arg("i32", 8), arg("i32", 5)]})
             items.append({"id": "tab_%s_%d" % (tabk, goff), "module": m, "script": script})
+    # (c2) random element segment layouts: constant and imported-global offsets in any order, overlaps, empty segments
+    for j in range(8 if tier == "quick" else 60):
+        tabk = rng.choice(["defined", "imported"])
+        gvals = [rng.randrange(0, 10), rng.randrange(0, 10)]
+        imports = [{"mod": "env", "name": "hostf", "kind": "func", "type": 0, "ret": b32(9999)},
+                   {"mod": "env", "name": "base0", "kind": "global", "t": "i32", "mut": False},
+                   {"mod": "env", "name": "base1", "kind": "global", "t": "i32", "mut": False}]
+        if tabk == "imported":
+            imports.append({"mod": "env", "name": "tab", "kind": "table", "min": 16, "max": 16})
+        types = [{"p": ["i32"], "r": ["i32"]}, {"p": ["i32", "i32"], "r": ["i32"]}]
+        nfun = 5
+        funcs = [{"type": 0, "locals": [], "body": [["local.get", 0], ["i32.const", b32(100 * (k + 1))], ["i32.add"], ["end"]]} for k in range(nfun)]
+        funcs.append({"type": 1, "locals": [], "body": [["local.get", 1], ["local.get", 0], ["call_indirect", 0, 0], ["end"]]})
+        elems, slot = [], {}
+        for _ in range(rng.randint(2, 5)):
+            n = rng.choice([0, 1, 1, 2, 3, 4])
+            fs = [rng.randrange(0, nfun + 1) for _ in range(n)]
+            kind = rng.choice(["c", "c", "g0", "g1"])
+            base = rng.randrange(0, 16 - n + 1) if kind == "c" else gvals[int(kind[1])]
+            if base + n > 16:
+                continue
+            elems.append({"offset": ["i32.const", b32(base)] if kind == "c" else ["global.get", int(kind[1])], "funcs": fs})
+            for i, f in enumerate(fs):
+                slot[base + i] = f
+        m = {"types": types, "imports": imports, "funcs": funcs, "elems": elems, "exports": [{"name": "icall", "kind": "func", "idx": 1 + nfun}]}
+        if tabk == "defined":
+            m["table"] = {"min": 16, "max": 16}
+        script = [{"op": "hostglobal", "t": "i32", "b": b32(gvals[0])}, {"op": "hostglobal", "t": "i32", "b": b32(gvals[1])}]
+        if tabk == "imported":
+            script.append({"op": "hosttable", "size": 16})
+        script.append(inst(0, 1 if tabk == "imported" else 0, [1, 2]))
+        for s_ in sorted(slot):
+            script.append({"op": "call", "inst": 1, "export": "icall", "args": [arg("i32", s_), arg("i32", 1)]})
+        items.append({"id": "seg%d" % j, "module": m, "script": script})
     # (d) import names: distinct imports must stay distinct; identifiers come from Mangle.tla
     pairs = [("env", "f"), ("env", "f_g"), ("env", "f__g"), ("a_", "b"), ("a", "_b"), ("m0", "Xx"), ("m0", "x$y"), ("m_0", "x.y-z")]
     imports = []
@@ -178,6 +212,10 @@ def main():
            "mangle_names": rep["names"], "mangle_pairs": rep["pairs"], "mangle_collisions_in_model": rep["collisions"],
            "mangle_collisions_not_underscore_boundary": rep["nonboundary"], "generated_bodies": gst.get("bodies", 0),
            "builds": [b["name"] for b in builds], "ops_skipped_undefined": st["ops_skipped_undefined"], "exhaustive": False}
+    # the repository's own spec-suite corpus for this instruction family: model vs the suite's expectations, w2c2 vs model
+    sys.path.insert(0, os.path.dirname(os.path.abspath(__file__)))
+    import corpus
+    cov.update(corpus.phase(v, "C04", tier))
     return v.finish("model_checking", cov,
                     ["call_indirect is exercised on in-bounds, initialised, correctly typed slots only (as the property states)",
                      "recursion depth bounded by the model's frame limit (40) and fuel"])
